@@ -5,6 +5,7 @@ import (
 	"go/ast"
 	"go/printer"
 	"go/token"
+	"strconv"
 )
 
 // c06Expr prints an expression after replacing every identifier that the function defines exactly once by `x := e`
@@ -109,7 +110,6 @@ func c06ReparseGuard(fd *ast.FuncDecl) bool {
 	})
 	return found
 }
-
 
 // c06Utf8Guard: fix a7918dd — in getOrCreateJournal, between the first and the second read of ims.tmap, an
 // `if <bool parameter> && !utf8.ValidString(<…>.Line()…) { … return … }`. Returns (found, onlyOnCreate): onlyOnCreate = the
@@ -255,6 +255,152 @@ func c06VisitorError() bool {
 		return true
 	}
 	return assigned && !shadowed
+}
+
+// c06ApplyStateChecksQuery: pkg/cursor crsr.ApplyState refuses a state whose Query differs from the cursor's: some `if` whose
+// condition contains `<x>.Query != <y>.Query` and whose body returns (provider.GetOrCreate relies on it to reject a cached
+// cursor that belongs to another query).
+func c06ApplyStateChecksQuery() bool {
+	f := parseFile("pkg/cursor/cursor.go")
+	if f == nil {
+		problem("pkg/cursor/cursor.go not found")
+		return true
+	}
+	fd := funcDecl(f, "crsr", "ApplyState")
+	if fd == nil || fd.Body == nil {
+		problem("cursor.crsr.ApplyState not found")
+		return true
+	}
+	found := false
+	ast.Inspect(fd.Body, func(n ast.Node) bool {
+		is, ok := n.(*ast.IfStmt)
+		if !ok {
+			return true
+		}
+		returns := false
+		for _, st := range is.Body.List {
+			if _, ok := st.(*ast.ReturnStmt); ok {
+				returns = true
+			}
+		}
+		if !returns {
+			return true
+		}
+		ast.Inspect(is.Cond, func(m ast.Node) bool {
+			if be, ok := m.(*ast.BinaryExpr); ok && be.Op == token.NEQ {
+				sx, ok1 := be.X.(*ast.SelectorExpr)
+				sy, ok2 := be.Y.(*ast.SelectorExpr)
+				if ok1 && ok2 && sx.Sel.Name == "Query" && sy.Sel.Name == "Query" {
+					found = true
+				}
+			}
+			return true
+		})
+		return true
+	})
+	return found
+}
+
+// c06IdSeed: pkg/utils/simpleid.go — how the id counter is seeded in init() and advanced in NextSimpleId():
+// clock method of time.Now() (UnixNano / Unix / …), the mask applied (0 = none), a left shift (0 = none), the increment.
+func c06IdSeed() (clock string, mask, shift, inc uint64) {
+	clock, mask, shift, inc = "UnixNano", 0xFFFFFFFFFFFF0000, 0, 0x10000 // pinned, kept when the code is not found
+	f := parseFile("pkg/utils/simpleid.go")
+	if f == nil {
+		problem("pkg/utils/simpleid.go not found")
+		return
+	}
+	lit := func(e ast.Expr) (uint64, bool) {
+		if bl, ok := e.(*ast.BasicLit); ok && bl.Kind == token.INT {
+			v, err := strconv.ParseUint(bl.Value, 0, 64)
+			return v, err == nil
+		}
+		return 0, false
+	}
+	var initFn, next *ast.FuncDecl
+	for _, d := range f.Decls {
+		if fd, ok := d.(*ast.FuncDecl); ok && fd.Recv == nil {
+			if fd.Name.Name == "init" {
+				initFn = fd
+			}
+			if fd.Name.Name == "NextSimpleId" {
+				next = fd
+			}
+		}
+	}
+	if initFn == nil || next == nil {
+		problem("utils.init / utils.NextSimpleId not found (pinned id-seed facts kept)")
+		return
+	}
+	c, m, sh, foundClock := "", uint64(0), uint64(0), false
+	ast.Inspect(initFn.Body, func(n ast.Node) bool {
+		switch x := n.(type) {
+		case *ast.CallExpr:
+			if se, ok := x.Fun.(*ast.SelectorExpr); ok {
+				if inner, ok := se.X.(*ast.CallExpr); ok {
+					if s2, ok := inner.Fun.(*ast.SelectorExpr); ok && s2.Sel.Name == "Now" {
+						c, foundClock = se.Sel.Name, true
+					}
+				}
+			}
+		case *ast.BinaryExpr:
+			if x.Op == token.AND {
+				if v, ok := lit(x.Y); ok && v > 0xFFFF {
+					m = v
+				}
+			}
+			if x.Op == token.SHL {
+				if v, ok := lit(x.Y); ok {
+					sh = v
+				}
+			}
+		}
+		return true
+	})
+	step, foundInc := uint64(0), false
+	ast.Inspect(next.Body, func(n ast.Node) bool {
+		if be, ok := n.(*ast.BinaryExpr); ok && be.Op == token.ADD {
+			if v, ok := lit(be.Y); ok {
+				step, foundInc = v, true
+			}
+		}
+		return true
+	})
+	if !foundClock || !foundInc {
+		problem("utils.init: time.Now().<clock>() or the increment of NextSimpleId not found (pinned id-seed facts kept)")
+		return
+	}
+	return c, m, sh, step
+}
+
+// c06NewSrcFormat: the fmt.Sprintf format of tindex.newSrc()
+func c06NewSrcFormat() string {
+	f := parseFile("pkg/tindex/idgen.go")
+	if f == nil {
+		problem("pkg/tindex/idgen.go not found")
+		return "%X%02X"
+	}
+	fd := funcDecl(f, "", "newSrc")
+	out := ""
+	if fd != nil {
+		ast.Inspect(fd.Body, func(n ast.Node) bool {
+			if ce, ok := n.(*ast.CallExpr); ok {
+				if se, ok := ce.Fun.(*ast.SelectorExpr); ok && se.Sel.Name == "Sprintf" && len(ce.Args) > 0 {
+					if bl, ok := ce.Args[0].(*ast.BasicLit); ok {
+						if v, err := strconv.Unquote(bl.Value); err == nil {
+							out = v
+						}
+					}
+				}
+			}
+			return true
+		})
+	}
+	if out == "" {
+		problem("tindex.newSrc: the Sprintf format was not found")
+		return "%X%02X"
+	}
+	return out
 }
 
 // c06CreateSite: the function that holds the create branch — getOrCreateJournal itself when it calls saveStateUnsafe()
@@ -439,6 +585,18 @@ func init() {
 		l.p("/-- pkg/partition GetJournals: the failures of the visitor closure (journal not opened, limit reached) are assigned to a")
 		l.p("variable of the enclosing function that is tested after the visit, and the closure does not re-declare it -/")
 		l.p("def getJournalsVisitorErrorReachesCaller : Bool := %s", leanBool(c06VisitorError()))
+		l.p("/-- pkg/cursor crsr.ApplyState: `if … a.Query != b.Query … { return <error> }` — a cached cursor is refused for a request that")
+		l.p("carries another query text -/")
+		l.p("def applyStateChecksQuery : Bool := %s", leanBool(c06ApplyStateChecksQuery()))
+		clk, msk, shf, inc := c06IdSeed()
+		l.p("/-- pkg/utils/simpleid.go init(): the clock the id counter is seeded from (`time.Now().<this>()`), the mask applied to it")
+		l.p("(0 = none), a left shift (0 = none); NextSimpleId(): the increment per id -/")
+		l.p("def idSeedClock : String := %s", leanStr(clk))
+		l.p("def idSeedMask : Nat := %d", msk)
+		l.p("def idSeedShift : Nat := %d", shf)
+		l.p("def idIncrement : Nat := %d", inc)
+		l.p("/-- tindex.newSrc(): the Sprintf format that spells the counter as a source id -/")
+		l.p("def newSrcFormat : String := %s", leanStr(c06NewSrcFormat()))
 		l.write()
 	}
 }
